@@ -1,5 +1,5 @@
 #!/usr/bin/env python3
-"""recheck_mirror.py <slots> NAME... -- like recheck_seeds.py, but in scratch mirrors (/tmp/mv-r<k>) so that
+"""recheck_mirror.py <slots> NAME... -- (RECHECK_NO_WRITE=1: report only, e.g. with another VERIF_SEED) like recheck_seeds.py, but in scratch mirrors (/tmp/mv-r<k>) so that
 /repo is not touched and several seeds are tried in parallel."""
 import json, os, subprocess, sys, re, threading, queue
 root = "/verif/seeded"
@@ -15,7 +15,9 @@ def work(k):
         meta = json.load(open(meta_p))
         props = [meta["property"]] + meta.get("also_check", [])
         out = subprocess.run(["/verif/tools/mirror_check.sh", f"r{k}", os.path.join(d, "patch.diff")] + props, capture_output=True, text=True, stdin=subprocess.DEVNULL).stdout
-        open(os.path.join(d, "check_output.txt"), "w").write(out)
+        nowrite = os.environ.get("RECHECK_NO_WRITE") == "1"
+        if not nowrite:
+            open(os.path.join(d, "check_output.txt"), "w").write(out)
         results, cur = {}, None
         for line in out.splitlines():
             m = re.match(r"== (\w+) exit=(\d+)", line)
@@ -29,7 +31,8 @@ def work(k):
         meta["ran"] = f"tools/mirror_check.sh <slot> seeded/{name}/patch.diff " + " ".join(props)
         if os.path.exists(os.path.join(d, "patch.orig.diff")):
             meta["patch_note"] = "patch.diff is the sub-agent's change ported by hand onto the tree after later fix commits (original: patch.orig.diff)"
-        json.dump(meta, open(meta_p, "w"), indent=1)
+        if not nowrite:
+            json.dump(meta, open(meta_p, "w"), indent=1)
         with lock:
             print(name, "DETECTED" if meta["detected_by_quick_check"] else ("patch does not apply" if "does not apply" in out else "not detected"), meta["detected_by"], [s[:90] for s in meta["violation_signatures"][:2]], flush=True)
 ts = [threading.Thread(target=work, args=(k,)) for k in range(slots)]
